@@ -279,6 +279,47 @@ static void closure_cell(H3Index h, vf_rng *r) {
         }
     }
     vf_add("closure.cells", 1);
+    /* ---- the same APIs far from the trivial arguments: hierarchy depths up to 15 (positions beyond 2^31 and 2^32, where a
+     * narrowed integer shows), local IJ coordinates tens of cells away, longitudes outside [-pi, pi], long paths */
+    for (int cr2 = res; cr2 <= 15; cr2 += 1 + (int)vf_below(r, 3)) {
+        if (!cellToCenterChild(h, cr2, &o)) vf_out_cell("cellToCenterChild", o, cr2);
+        int64_t cn = 0;
+        if (cellToChildrenSize(h, cr2, &cn) || cn <= 0) continue;
+        int64_t pos[8] = {0, cn - 1, cn / 2, (int64_t)vf_below(r, (uint64_t)cn), (int64_t)vf_below(r, (uint64_t)cn), (int64_t)1 << 31, ((int64_t)1 << 32) + 12345, cn - 1 - (int64_t)vf_below(r, 1 + (uint64_t)(cn / 7))};
+        for (int i = 0; i < 8; i++)
+            if (pos[i] >= 0 && pos[i] < cn && !childPosToCell(pos[i], h, cr2, &o)) {
+                vf_out_cell("childPosToCell", o, cr2);
+                if (!cellToParent(o, res, &o2)) vf_out_cell("cellToParent", o2, res);
+            }
+    }
+    for (int pr = 0; pr < res; pr++)
+        if (!cellToParent(h, pr, &o)) vf_out_cell("cellToParent", o, pr);
+    {
+        CoordIJ ij;
+        if (!cellToLocalIj(h, h, 0, &ij))
+            for (int i = 0; i < 6; i++) {
+                CoordIJ q = {ij.i + (int)vf_below(r, 121) - 60, ij.j + (int)vf_below(r, 121) - 60};
+                if (!localIjToCell(h, &q, 0, &o)) {
+                    vf_out_cell("localIjToCell", o, res);
+                    int64_t pn;
+                    if (i == 0 && !gridPathCellsSize(h, o, &pn) && pn < 400) {
+                        H3Index *p = vf_buf_new((size_t)pn * 8, 0);
+                        if (!gridPathCells(h, o, p)) OUTS("gridPathCells", p, pn);
+                        vf_buf_free(p);
+                    }
+                }
+            }
+        if (!cellToLatLng(h, &g)) {
+            double shift[5] = {-2 * M_PI, 2 * M_PI, 0, 0, 0};
+            for (int i = 0; i < 5; i++) {
+                LatLng q = {g.lat + (i >= 2 ? (vf_unit(r) - 0.5) * 0.02 : 0), g.lng + shift[i] + (i >= 2 ? (vf_unit(r) - 0.5) * 0.02 : 0)};
+                if (fabs(q.lng) > 2 * M_PI || fabs(q.lat) > M_PI / 2) continue;
+                int rr = i == 4 ? (int)vf_below(r, 16) : res;
+                if (!latLngToCell(&q, rr, &o)) vf_out_cell("latLngToCell", o, rr);
+            }
+        }
+    }
+    vf_add("closure.deep", 1);
 }
 static void stratum_closure(vf_rng *r) {
     H3Index seeds[400];
